@@ -360,10 +360,24 @@ def run_shard(ctx):
         if len(b) > 16384:
             ctx.count("large_inventories_over_one_bufsize")
         eval_chunks(ctx, case, one, [[16384], [16383], [4097], [1000, 7], [R.randint(100, 5000) for _ in range(5)]])
+    # large and very REGULAR tables (api listings): one 16 KiB block of compressed input expands to several hundred KiB
+    for n in ([R.randint(20000, 36000)] if quick else [R.randint(20000, 36000), R.randint(40000, 80000)]):
+        if ctx.shard % 4 != 1 and quick:
+            break
+        rows = [(f"pkg.mod{j // 400}.Class{(j // 20) % 20}.method{j % 20}", "py:method", "1", f"api/pkg.mod{j // 400}.html#$", "-") for j in range(n)]
+        b = ser_v2("Regular", "1", v2_lines(rows), True, R.choice([6, 9]))
+        ratio = sum(len(l) + 1 for l in v2_lines(rows)) / max(1, len(b))
+        case = {"kind": "load", "format": "v2", "rows": [], "bytes": {"__bytes__": b.hex()}, "note": f"{n} regular entries, {len(b)} bytes, expansion x{ratio:.0f}"}
+        one = eval_load(ctx, case)
+        ctx.case(("regular", n, len(b)), nontrivial=ratio > 16 and len(b) > 16384)
+        ctx.count("regular_large_inventories")
+        if ratio > 16 and len(b) > 16384:
+            ctx.count("regular_large_inventories_expanding_16x")
+        eval_chunks(ctx, case, one, [[16384], [1024], [65536], [R.randint(1, 65536) for _ in range(6)], [R.randint(1, 4096) for _ in range(6)]])
 
 
 def finalize(m, tier):
     c = m["counters"]
-    for k, lo in (("agree_with_sphinx", 50), ("chunked_loads_with_4plus_reads", 100), ("mutations", 30), ("roundtrips", 30), ("loads_v1", 1), ("large_inventories_over_one_bufsize", 1)):
+    for k, lo in (("agree_with_sphinx", 50), ("chunked_loads_with_4plus_reads", 100), ("mutations", 30), ("roundtrips", 30), ("loads_v1", 1), ("large_inventories_over_one_bufsize", 1), ("regular_large_inventories_expanding_16x", 1)):
         if c.get(k, 0) < lo:
             m["inconclusive"].append(f"monitor observed only {c.get(k, 0)} '{k}' events (< {lo})")
